@@ -691,15 +691,17 @@ static J TraceLine(World & w, const J & cmd, const Tree & after)
    J srv = J::Arr();
    for (Tree::const_iterator it = after.begin(); it != after.end(); ++it) if ((World::Depth(it->first) >= 2)&&(it->second.hasIndex)) { J n = J::Obj(); n.set("n", w.SpecPath(it->first)); n.set("idx", JStrs(it->second.index)); n.set("kids", JStrs(it->second.kids)); srv.push(n); }
    r.set("srv", srv);
-   J trk = J::Obj(), unc = J::Obj();
+   J trk = J::Obj(), unc = J::Obj(), untr = J::Obj();
    for (size_t ci=0; ci<w.cs.size(); ci++) if (w.cs[ci]->connected)
    {
       Client & c = *w.cs[ci];
-      J a = J::Arr(); for (Tree::const_iterator it = after.begin(); it != after.end(); ++it) if ((World::Depth(it->first) >= 2)&&(c.PathSubscribed(it->first))&&(!c.untracked.count(it->first))&&(it->second.hasIndex)) a.push(w.SpecPath(it->first));
+      J a = J::Arr(); for (Tree::const_iterator it = after.begin(); it != after.end(); ++it) if ((World::Depth(it->first) >= 2)&&(c.PathSubscribed(it->first))&&(!c.untracked.count(it->first))&&((it->second.hasIndex)||((c.idx.count(it->first))&&(!c.idx[it->first].empty())))) a.push(w.SpecPath(it->first));
+      for (std::map<std::string,SV>::iterator it = c.idx.begin(); it != c.idx.end(); ++it) if ((!it->second.empty())&&(after.find(it->first) == after.end())&&(c.PathSubscribed(it->first))&&(!c.untracked.count(it->first))) a.push(w.SpecPath(it->first));
       trk.set(c.name, a);
+      if (!c.untracked.empty()) { J b = J::Arr(); for (std::set<std::string>::iterator it = c.untracked.begin(); it != c.untracked.end(); ++it) b.push(w.SpecPath(*it)); untr.set(c.name, b); }
       if (!c.unclaimed.empty()) { J b = J::Arr(); for (std::set<std::string>::iterator it = c.unclaimed.begin(); it != c.unclaimed.end(); ++it) b.push(w.SpecPath(*it)); unc.set(c.name, b); }
    }
-   r.set("trk", trk); r.set("unc", unc);
+   r.set("trk", trk); r.set("unc", unc); r.set("untr", untr);
    return r;
 }
 
